@@ -76,13 +76,17 @@ def shard(p):
             for style in ("full", "min"):
                 texts = [exact.render(t, style) for t, _ in cases]
                 reqs = [{"op": "query", "q": q} for q in texts]
-                try:
-                    reps = d.call_many(reqs, timeout=120)
-                except (DriverDied, DriverTimeout) as ex:
-                    acc.inconc("driver %s: %r" % (kind, ex))
-                    d.restart()
-                    continue
+                reps = []
+                for i in range(0, len(reqs), 1000):
+                    try:
+                        reps += d.call_many(reqs[i:i + 1000], timeout=600)
+                    except (DriverDied, DriverTimeout) as ex:
+                        acc.inconc("driver %s: %r on a batch starting with %r" % (kind, ex, texts[i][:200]))
+                        d.restart()
+                        reps += [None] * len(reqs[i:i + 1000])
                 for (t, e), q, rep in zip(cases, texts, reps):
+                    if rep is None:
+                        continue
                     acc.evaluations += 1
                     ops = exact.ops_of(t)
                     if len(ops) >= 2 and len(set(ops)) >= 2:
@@ -101,9 +105,9 @@ def run(tier, seed):
     t0 = time.time()
     bins = {k: build.build(k)["vdriver"] for k in ("dbg", "rel")}
     if tier == "quick":
-        n, depth, digits, max_exp = 10000, 5, 14, 30
+        n, depth, digits, max_exp = 40000, 5, 14, 30
     else:
-        n, depth, digits, max_exp = 500000, 8, 120, 300
+        n, depth, digits, max_exp = 400000, 7, 80, 200
     per = max(1, n // NCPU)
     payloads = [{"seed": seed, "shard": i, "n": per, "depth": depth, "digits": digits, "max_exp": max_exp,
                  "builds": ["dbg", "rel"], "bins": bins} for i in range(NCPU)]
